@@ -46,6 +46,10 @@ def gen(tier, seed):
         fn = "h_pow_%s_%s" % (str(n).replace("-", "m"), us)
         lines += ["def %s(a: float) -> bool:" % fn, '    """', "    pre: 1e-3 < a < 1e3", "    post: _", '    """', "    return powint(a, %d, %r, %r)" % (n, us, d), ""]
         conds.append({"fn": fn, "what": "value ** %d (system %s, dim %s)" % (n, us, d), "sig": "c05-pow", "structure": us, "timeout": 90})
+    lines += ["def h_eq_lattice(ia: int, ib: int, k: int) -> bool:", '    """', "    pre: 0 <= ia <= 15 and 0 <= ib <= 15 and 0 <= k <= %d" % (11 if tier == "quick" else 35), "    post: _", '    """',
+              "    return eq_lattice(ia, ib, k)", ""]
+    conds.append({"fn": "h_eq_lattice", "what": "== and != agree with the comparison of SI values on a 16-point magnitude lattice from 1e-30 to 1e30 incl. close pairs (no absolute tolerance), 6 storage-system pairs, both operand orders",
+                  "sig": "c05-eq-lattice", "structure": "lattice", "enumerate": True, "viol": "== / != between quantities disagrees with the comparison of their SI values"})
     # error clauses: symbolic dimension vectors
     for op in ("add", "sub", "mod", "lt", "le", "gt", "ge"):
         fn = "h_mismatch_%s" % op
@@ -104,4 +108,5 @@ def run(rec):
         rec.encoded(fn)
     text, conds = gen(rec.tier, rec.seed)
     mod = pysym.write_module("hgen_C05", text)
-    pysym.run_conditions(rec, mod, conds, default_timeout=60 if rec.tier == "quick" else 180)
+    pysym.run_auto(rec, mod, [c for c in conds if c.get("enumerate")])     # finite lattices whose values end up inside numpy: plain CPython, exhaustive
+    pysym.run_conditions(rec, mod, [c for c in conds if not c.get("enumerate")], default_timeout=60 if rec.tier == "quick" else 180)
